@@ -9,30 +9,20 @@ of the family.
 namespace PebblesVerif.Flat
 open PebblesVerif PebblesVerif.Exec PebblesVerif.C02
 
-/-- **The hypotheses tying the SERVICE schemas to the routing table** (`Flat.Fam` speaks of the
-    merged schema and the type-URL map only). `SA`, the schema of the service at `A`: a query root
-    `Query` with the field `q` whose named type is `T` (`q : T` for the one-object family,
-    `q : [T]` for the list family), selectable without arguments; the object type `T` with `id`
-    and EXACTLY the selected fields the table routes to `A` (`fsA` / `onlyA`), each a leaf. `SB`,
-    the schema of the service at `B`: a query root `Query` with `node(id: ID!): Node`, the
-    interface `Node`, the object type `T` implementing `Node`, with `id` and EXACTLY the selected
-    fields the table routes to `B`, each a leaf.
-
-    Remark. For a federation merged by the gateway these are consequences of the merge: the table
-    routes a field only to a service that declares it (`C04_declares`), a Node type's non-`id`
-    field has one owner (`C04_node_field_owner`), and every service that contributes to a Node type
-    must offer the `node` lookup. The connection is not made formally here. -/
-structure SvcFam (c : PCtx) (A B T q : String) (fs : List FieldSpec) (SA SB : Schema) : Prop where
-  hTne : T ≠ ""
-  -- service A
-  rootA : SA.query = some "Query"
-  kQA : kindOf SA "Query" = some .object
-  qA : ∃ fd, fieldOf SA "Query" q = some fd ∧ fd.type.name = T ∧ requiredGiven fd.args [] = true
+/-- what the schema `SA` of the service that owns the object says about the Node type `T`: an
+    object type with `id` and EXACTLY the selected fields the table routes to `A` (`fsA` / `onlyA`),
+    each a leaf field selectable without arguments -/
+structure SvcTA (T : String) (fs : List FieldSpec) (SA : Schema) : Prop where
   kTA : kindOf SA T = some .object
   idA : LeafField SA T "id"
   fsA : ∀ f ∈ fs, f.2.2 = false → LeafField SA T f.1
   onlyA : ∀ f ∈ fs, f.2.2 = true → fieldOf SA T f.1 = none
-  -- service B
+
+/-- what the schema `SB` of the service that is asked the follow-up lookups says: a query root
+    `Query` with `node(id: ID!): Node`, the interface `Node`, the object type `T` implementing
+    `Node`, with `id` and EXACTLY the selected fields the table routes to `B`, each a leaf -/
+structure SvcB (T : String) (fs : List FieldSpec) (SB : Schema) : Prop where
+  hTne : T ≠ ""
   rootB : SB.query = some "Query"
   kQB : kindOf SB "Query" = some .object
   nodeB : ∃ fd ad, fieldOf SB "Query" "node" = some fd ∧ fd.type.name = "Node" ∧
@@ -43,6 +33,25 @@ structure SvcFam (c : PCtx) (A B T q : String) (fs : List FieldSpec) (SA SB : Sc
   idB : LeafField SB T "id"
   fsB : ∀ f ∈ fs, f.2.2 = true → LeafField SB T f.1
   onlyB : ∀ f ∈ fs, f.2.2 = false → fieldOf SB T f.1 = none
+
+/-- **The hypotheses tying the SERVICE schemas to the routing table** (`Flat.Fam` speaks of the
+    merged schema and the type-URL map only). `SA`, the schema of the service at `A`: a query root
+    `Query` with the field `q` whose named type is `T` (`q : T` for the one-object family,
+    `q : [T]` for the list family), selectable without arguments; the object type `T` with `id`
+    and EXACTLY the selected fields the table routes to `A` (`Flat.SvcTA`: `fsA` / `onlyA`), each a
+    leaf. `SB`, the schema of the service at `B` (`Flat.SvcB`): a query root `Query` with
+    `node(id: ID!): Node`, the interface `Node`, the object type `T` implementing `Node`, with `id`
+    and EXACTLY the selected fields the table routes to `B`, each a leaf.
+
+    Remark. For a federation merged by the gateway these are consequences of the merge: the table
+    routes a field only to a service that declares it (`C04_declares`), a Node type's non-`id`
+    field has one owner (`C04_node_field_owner`), and every service that contributes to a Node type
+    must offer the `node` lookup. The connection is not made formally here. -/
+structure SvcFam (c : PCtx) (A B T q : String) (fs : List FieldSpec) (SA SB : Schema) : Prop
+    extends SvcTA T fs SA, SvcB T fs SB where
+  rootA : SA.query = some "Query"
+  kQA : kindOf SA "Query" = some .object
+  qA : ∃ fd, fieldOf SA "Query" q = some fd ∧ fd.type.name = T ∧ requiredGiven fd.args [] = true
 
 end PebblesVerif.Flat
 
@@ -137,29 +146,35 @@ theorem header_lookup (c : PCtx) (B T q : String) (bs : List FieldSpec) :
 
 /-! ### the root request at `A` -/
 
+/-- `q { id <A's fields> }` selected on a type `parent` of `S` that declares `q` with named type `T` -/
+theorem validSel_rootSel {c : PCtx} {A B T q : String} {fs : List FieldSpec} (S : Schema) (hdr : Header)
+    (h : FamT c A B T q fs) (hq : isBuiltinName q = false) (hta : SvcTA T fs S) (parent : TypeDef) (ty : TypeRef)
+    (hfq : ∃ fd, parent.field? q = some fd ∧ fd.type.name = T ∧ requiredGiven fd.args [] = true) :
+    validSel S hdr parent (rootSel q ty (Flat.fsA fs)) = true := by
+  obtain ⟨TA, hTA, hkT⟩ := kindOf_some hta.kTA
+  obtain ⟨fdq, hfq, hqT, hreq⟩ := hfq
+  have hleaves : validSels S hdr TA (leaves (Flat.fsA fs)) = true := by
+    apply validSels_leaves S _ T TA hTA
+    intro f hf
+    simp only [Flat.fsA, List.mem_filter, Bool.not_eq_eq_eq_not, Bool.not_true] at hf
+    exact ⟨h.hfb f.1 (mem_names hf.1), hta.fsA f hf.1 hf.2⟩
+  have hid : validSel S hdr TA idField = true := validSel_leaf S _ T TA "id" _ "" hTA (by decide) hta.idA
+  rw [rootSel, validSel]
+  simp only [ne_typename_of_not_builtin hq, Bool.false_eq_true, ↓reduceIte, hfq, argsOK, List.all_nil, hreq,
+    Bool.and_self, List.isEmpty_cons, Bool.true_and]
+  rw [hqT, shapeOK_composite S T _ TA hTA (by rw [hkT]; rfl)]
+  simp only [Bool.not_false, Bool.true_and, validSels, hid, hleaves, Bool.and_self]
+
 theorem validFor_root {c : PCtx} {A B T q : String} {fs : List FieldSpec} {SA SB : Schema}
     (h : Fam c A B T q fs) (hs : SvcFam c A B T q fs SA SB) (ty : TypeRef) (thn : List Step) (vars : List (String × J)) :
     ValidFor SA (rqOf c (.mk A "Query" [rootSel q ty (Flat.fsA fs)] [] thn) vars) = true := by
   obtain ⟨QA, hQA, hkQ⟩ := kindOf_some hs.kQA
-  obtain ⟨TA, hTA, hkT⟩ := kindOf_some hs.kTA
   obtain ⟨fdq, hfdq, hqT, hreq⟩ := hs.qA
   have hfq := fieldOf_some hQA hfdq
-  have hleaves : validSels SA (header c (.mk A "Query" [rootSel q ty (Flat.fsA fs)] [] thn)) TA (leaves (Flat.fsA fs)) = true := by
-    apply validSels_leaves SA _ T TA hTA
-    intro f hf
-    simp only [Flat.fsA, List.mem_filter, Bool.not_eq_eq_eq_not, Bool.not_true] at hf
-    exact ⟨h.hfb f.1 (mem_names hf.1), hs.fsA f hf.1 hf.2⟩
-  have hid : validSel SA (header c (.mk A "Query" [rootSel q ty (Flat.fsA fs)] [] thn)) TA idField = true :=
-    validSel_leaf SA _ T TA "id" _ "" hTA (by decide) hs.idA
   unfold ValidFor
   simp only [rqOf, header_root, h.hkind, rootOf, hs.rootA, hQA, hkQ, Step.sels, beq_self_eq_true, List.isEmpty_cons,
     Bool.not_false, Bool.true_and]
-  rw [validSels, rootSel, validSel]
-  simp only [ne_typename_of_not_builtin h.hqb, Bool.false_eq_true, ↓reduceIte, hfq, argsOK, List.all_nil, hreq,
-    Bool.and_self, List.isEmpty_cons, Bool.true_and, validSels, Bool.and_true]
-  rw [hqT, shapeOK_composite SA T _ TA hTA (by rw [hkT]; rfl)]
-  simp only [header_root, h.hkind] at hid hleaves
-  rw [hid, hleaves]
+  rw [validSels, validSel_rootSel SA _ h.toFamT h.hqb hs.toSvcTA QA ty ⟨fdq, hfq, hqT, hreq⟩]
   rfl
 
 end PebblesVerif.C02
